@@ -78,9 +78,13 @@ class C15(Property):
             s.add("R.1.9", "C.1.9")
             t = 1
             while t < 172800:
+                # coarse steps while the back-off is still growing, fine steps once it has reached its ceiling (after
+                # 11 x (1 + 2 + ... + 2048) s = 12.5 h) so that the interval between two attempts is measured closely
                 step = 1 if t < 200 else rng.choice([1, 7, 61, 600, 1800])
                 t += step
                 s.add("T.%d" % t, "H.1")
+                if rng.random() < 0.05:
+                    s.add("S.1")           # observe the back-off state (tries, timeout, next) all along the 48 h
             s.t = t
             s.add("S.1")
             out.append(s.line())
@@ -122,15 +126,22 @@ class C15(Property):
         nodes = [o for o in ops if o.startswith("N.")]
         n = len(nodes)
         if " R.1.9 " in line:
-            # re-dials of the configured peer never more than one hour (+ the housekeeping step) apart
+            # (a) the back-off STATE: the delay of a configured peer's entry never exceeds one hour, nor does the time to its next
+            #     attempt.  (Gaps between attempts cannot be bounded from the emissions of this scenario: housekeeping runs here at
+            #     coarse steps while the real loop runs it every second, and a pending attempt lasts 120 housekeeping calls.)
+            # (b) liveness: the peer is still being dialled at the end
             last, now, prev_now = None, 1, 1
             for o, r in zip(ops, outs):
                 if o.startswith("T."):
                     prev_now, now = now, int(o[2:])
+                elif o == "S.1":
+                    for e in [x for x in nu.parse_dump(r).get("rc", "[]")[1:-1].split(",") if x]:
+                        tries, to, nxt = (int(v) for v in e.split(":"))
+                        if to > 3600 or nxt - now > 3600:
+                            return ("configured peer at t=%d: back-off delay %d s, next attempt in %d s (tries %d): the back-off must never "
+                                    "exceed one hour") % (now, to, nxt - now, tries)
                 elif o == "H.1" or o == "C.1.9":
                     if any(d == 9 and k.startswith("I1") for d, k in nu.emissions(r)):
-                        if last is not None and now - last > 3600 + (now - prev_now) + 121:
-                            return "configured peer not re-dialled for %d s (back-off must never exceed one hour)" % (now - last)
                         last = now
             if last is None or now - last > 3600 + 1800 + 121:
                 return "configured peer no longer re-dialled at the end of the run"
